@@ -77,13 +77,7 @@ class Service:
         self.sse_module_loader = None
         self.edb = None
 
-        if FileManager.check_sid_local_file_valid(sid):
-            self.config = FileManager.read_service_config(sid)
-            self.service_meta = FileManager.read_service_meta(sid)
-            self._load_sse_module()
-            self._load_config_object()
-        else:  # NEW Service
-            self.service_meta = {"state": SERVICE_STATE.NOT_EXISTS}
+        self.load_stored_service()
 
         self.recv_msg_handler = {
             MsgType.CONFIG: self.handle_upload_config,
@@ -101,6 +95,19 @@ class Service:
     @property
     def short_sid(self) -> str:
         return shorten_sid(self.sid)
+
+    def load_stored_service(self):
+        """(Re)load the stored configuration and state of the service.
+        A connection that had to wait for a previous one calls it again when its turn comes,
+        because the previous connection may have changed the stored service in the meantime.
+        """
+        if FileManager.check_sid_local_file_valid(self.sid):
+            self.config = FileManager.read_service_config(self.sid)
+            self.service_meta = FileManager.read_service_meta(self.sid)
+            self._load_sse_module()
+            self._load_config_object()
+        else:  # NEW Service
+            self.service_meta = {"state": SERVICE_STATE.NOT_EXISTS}
 
     async def start(self):
         await self._recv_message()
